@@ -12,6 +12,8 @@ void __sanitizer_finish_switch_fiber(void *fake_stack_save, const void **bottom_
 #endif
 
 World *g_world = nullptr;
+volatile uint64_t g_asan_reports = 0, g_asan_writes = 0;
+char g_asan_first[256];
 const char *g_variant = "prod";
 const char *g_trng_flavor = "getrandom";
 
@@ -52,7 +54,7 @@ static const char *CTN[CT_COUNT] = {
     "probe_prng_init_failed_delivery", "probe_prng_reseed_failed_delivery", "probe_prng_null_callback_init", "probe_prng_system_source_init", "probe_prng_twin_flip_checked", "probe_prng_twin_equiv_checked",
     "probe_trng_calls", "probe_trng_success_after_retries", "probe_trng_permanent_error", "probe_trng_fd_opened",
     "probe_free_checked", "probe_free_never_initialised", "probe_free_mid_message", "probe_free_after_finalize", "probe_free_twice", "probe_clean_checked",
-    "probe_mix_serial_compared_ops", "probe_mix_reorder_compared_ops", "probe_heap_calls_from_library"};
+    "probe_mix_serial_compared_ops", "probe_mix_reorder_compared_ops", "probe_heap_calls_from_library", "asan_read_reports_unclaimed_observation"};
 const char *ctr_name(int c) { return (c >= 0 && c < CT_COUNT) ? CTN[c] : "?"; }
 
 // ---------------------------------------------------------------- bytes
@@ -241,7 +243,7 @@ static const size_t BUF_TAIL = 0;
 static const size_t BUF_TAIL = 16;
 #endif
 Buf::Buf(size_t len_, size_t off_) : len(len_), off(off_) {
-    base = (uint8_t *)malloc(off + len + BUF_TAIL + 1);
+    base = (uint8_t *)malloc(off + len + BUF_TAIL + (BUF_TAIL ? 1 : 0) + ((off + len) ? 0 : 1));
     if (!base) abort();
     p = base + off;
     for (size_t i = 0; i < off; i++) base[i] = canary_byte(i);
